@@ -953,18 +953,71 @@ func (c *c03) errors() {
 		}
 	}
 	r.check(hasAs && hasSys && hasIs, "r5", "ExtractErrno consults wrapped chains", ex.Decl.Pos(), "errors.As into linux.Errno, sysErrno, errors.Is on the os.Err* sentinels", fmt.Sprintf("stages found: %v", order))
-	r.check(firstSentinel == token.NoPos || lastExact < firstSentinel, "r5", "ExtractErrno recovers exact errno values before the lossy sentinel table", ex.Decl.Pos(),
-		"exact stages precede errors.Is(err, os.Err*)",
-		"the os.Err* sentinel table is consulted before the exact errno is extracted: syscall.Errno.Is answers true for several numbers per sentinel, so a backend's syscall.EPERM (Is(os.ErrPermission)) reaches the client as EACCES and ENOTEMPTY (Is(os.ErrExist)) as EEXIST — not the equivalent Linux errno")
-	// default EIO
-	okEIO := false
-	if len(ex.Decl.Body.List) > 0 {
-		if ret, ok := ex.Decl.Body.List[len(ex.Decl.Body.List)-1].(*ast.ReturnStmt); ok && len(ret.Results) == 1 {
-			if v, ok := constInt(linfo, ret.Results[0]); ok && v == 5 {
-				okEIO = true
+	// every return chosen by the sentinel table is reached only after both exact stages failed
+	ldb0 := buildLocalDB(r.L, []*FuncInfo{ex})
+	exactFirst, nSent := true, 0
+	for _, e := range ldb0.Exits[ex] {
+		if e.Fn != ast.Node(ex.Decl) || e.Ret == nil || e.St.Dead {
+			continue
+		}
+		for _, p := range e.St.Paths {
+			sentinel, asFailed, sysFailed := false, false, false
+			for k, v := range p {
+				switch {
+				case strings.HasPrefix(k, "errors.Is(") && v:
+					sentinel = true
+				case strings.HasPrefix(k, "errors.As(") && !v:
+					asFailed = true
+				case strings.Contains(k, "sysErrno(") && strings.HasSuffix(k, " == 0") && v:
+					sysFailed = true
+				}
+			}
+			if sentinel {
+				nSent++
+				if !asFailed || !sysFailed {
+					exactFirst = false
+				}
 			}
 		}
 	}
+	_ = lastExact
+	r.check(firstSentinel == token.NoPos || exactFirst && nSent > 0, "r5", "ExtractErrno recovers exact errno values before the lossy sentinel table", ex.Decl.Pos(),
+		"exact stages precede errors.Is(err, os.Err*)",
+		"the os.Err* sentinel table is consulted before the exact errno is extracted: syscall.Errno.Is answers true for several numbers per sentinel, so a backend's syscall.EPERM (Is(os.ErrPermission)) reaches the client as EACCES and ENOTEMPTY (Is(os.ErrExist)) as EEXIST — not the equivalent Linux errno")
+	// default EIO
+	// the exit taken when no stage matched (no errors.Is / errors.As came out true on the way)
+	// returns EIO; every such exit does
+	okEIO, nDefault := true, 0
+	ldb := buildLocalDB(r.L, []*FuncInfo{ex})
+	for _, e := range ldb.Exits[ex] {
+		if e.Fn != ast.Node(ex.Decl) || e.Ret == nil || len(e.Ret.Results) != 1 || e.St.Dead {
+			continue
+		}
+		unmatched := false
+		for _, p := range e.St.Paths {
+			pos := false
+			for k, v := range p {
+				if v && (strings.HasPrefix(k, "errors.Is(") || strings.HasPrefix(k, "errors.As(")) {
+					pos = true
+				}
+				// an exact errno was found: "x == 0" false for the extracted number
+				if !v && strings.HasSuffix(k, " == 0") {
+					pos = true
+				}
+			}
+			if !pos {
+				unmatched = true
+			}
+		}
+		if !unmatched {
+			continue
+		}
+		nDefault++
+		if v, isC := constInt(linfo, e.Ret.Results[0]); !isC || v != 5 {
+			okEIO = false
+		}
+	}
+	okEIO = okEIO && nDefault > 0
 	r.check(okEIO, "r5", "ExtractErrno defaults to EIO", ex.Decl.Pos(), "last return is EIO", "errors without an errno are not mapped to EIO")
 	// sysErrno uses errors.As on this platform's syscall.Errno (wrapped chains)
 	if se := r.L.Func("linux", "sysErrno"); se != nil {
